@@ -154,7 +154,12 @@ impl Socket for UdpSocketImpl {
         #[cfg(gamedig_verif)]
         crate::verif_hook::udp_new(address);
 
-        let socket = net::UdpSocket::bind("0.0.0.0:0").map_err(|e| SocketBind.context(e))?;
+        // bind in the address family of the remote host
+        let local: SocketAddr = match address {
+            SocketAddr::V4(_) => (net::Ipv4Addr::UNSPECIFIED, 0).into(),
+            SocketAddr::V6(_) => (net::Ipv6Addr::UNSPECIFIED, 0).into(),
+        };
+        let socket = net::UdpSocket::bind(local).map_err(|e| SocketBind.context(e))?;
 
         let socket = Self {
             socket,
